@@ -13,7 +13,13 @@ for f in sorted(glob.glob('/tmp/corpus/*.txt')):
     if old:
         props=[p for p in props if any(True for v in re.findall(r'^%s quick:.*?(?=^C\d\d quick:|\Z)'%p, txt, re.M|re.S) if re.search(r'^  (VIOLATED|UNDECIDED)', v, re.M))]
     rows.append((kind,nm,props,viol,broken,stale,old))
-miss=[r for r in rows if r[0]=='S' and not r[2]]
+def known_miss(name):
+    try:
+        return bool(json.load(open('/verif/seeded/%s/meta.json'%name)).get('known_miss'))
+    except Exception:
+        return False
+miss=[r for r in rows if r[0]=='S' and not r[2] and not known_miss(r[1])]
+kmiss=[r for r in rows if r[0]=='S' and not r[2] and known_miss(r[1])]
 try:
     idx=json.load(open('/verif/benign/index.json'))
 except Exception:
@@ -25,6 +31,7 @@ fa=[r for r in rows if r[0]=='B' and (unexpected(r) or r[4])]
 lim=[r for r in rows if r[0]=='B' and r[2] and not unexpected(r) and not r[4]]
 print("seeded: %d, detected %d, MISSED %d"%(sum(1 for r in rows if r[0]=='S'), sum(1 for r in rows if r[0]=='S' and r[2]), len(miss)))
 for r in miss: print("  MISSED", r[1], "(stale patch)" if r[5] else "")
+for r in kmiss: print("  known miss (value-level slip, recorded in its meta.json):", r[1])
 print("benign: %d, silent %d, FALSE ALARMS %d"%(sum(1 for r in rows if r[0]=='B'), sum(1 for r in rows if r[0]=='B' and not r[2] and not r[4]), len(fa)))
 print("benign with alarms recorded as limits of the analysis (higher-order / table-driven / anchor replaced): %d"%len(lim))
 for r in lim: print("  LIMIT", r[1], r[2])
